@@ -1224,7 +1224,9 @@ class Index:
                 )
                 sha1_writer.close()
         except:
-            f.close()
+            # Discard the partially written lock file; close() would rename
+            # it over the existing index.
+            f.abort()
             raise
 
     def read(self) -> None:
